@@ -350,7 +350,6 @@ pub fn oracle(
     rb: &[SpecRow],
     pairs: &[(usize, usize)],
     unlimited: Option<&[(usize, usize)]>,
-    prefiltered: bool,
     judge_completeness: bool,
 ) -> Verdict {
     let mut v = Verdict { failures: vec![], judged_a: 0, skipped_groups: 0 };
@@ -370,8 +369,7 @@ pub fn oracle(
         }
         if let (Some(ta), Some(tb)) = (a.num(tf), b.num(tf)) {
             if !time_ok(ta, tb) {
-                let class = if ta < 0 || tb < 0 { "neg-time-u64" } else { "-" };
-                v.failures.push((class.into(), format!("pair a{}.{}@{ta} b{}.{}@{tb} violates the time relation", a.zone, a.idx, b.zone, b.idx)));
+                v.failures.push(("-".into(), format!("pair a{}.{}@{ta} b{}.{}@{tb} violates the time relation", a.zone, a.idx, b.zone, b.idx)));
             }
         }
         if !ok_a[ia] || !ok_b[ib] {
@@ -425,10 +423,6 @@ pub fn oracle(
             v.skipped_groups += 1;
             continue;
         }
-        let neg = times_a.iter().chain(times_b.iter()).any(|t| t.unwrap() < 0);
-        // the rows the sweep sees: all of the group, or (prefiltered input) those passing their side
-        let min_a = ga.iter().zip(times_a.iter()).filter(|(i, _)| !prefiltered || ok_a[**i]).map(|(_, t)| t.unwrap()).min();
-        let min_b = gb.iter().zip(times_b.iter()).filter(|(i, _)| !prefiltered || ok_b[**i]).map(|(_, t)| t.unwrap()).min();
         for (&ia, ta) in ga.iter().zip(times_a.iter()) {
             let ta = ta.unwrap();
             v.judged_a += 1;
@@ -440,11 +434,7 @@ pub fn oracle(
                 // which known defect explains it, if any
                 let nearest_t = if preceded { cands.iter().map(|c| c.1).max() } else { cands.iter().map(|c| c.1).min() };
                 let nearest_fails = cands.iter().any(|&(ib, tb)| Some(tb) == nearest_t && !ok_b[ib]);
-                let class = if neg {
-                    "neg-time-u64"
-                } else if preceded && min_b.is_some() && min_a.is_some() && min_b.unwrap() >= min_a.unwrap() {
-                    "preceded-first-b-not-earlier"
-                } else if nearest_fails {
+                let class = if nearest_fails {
                     "nearest-partner-fails-where"
                 } else {
                     "-"
@@ -454,8 +444,7 @@ pub fn oracle(
                     format!("a{}.{}@{ta} link {k:?} has a qualifying partner but is not matched", ra[ia].zone, ra[ia].idx),
                 ));
             } else if !qualifies && is_matched {
-                let class = if neg { "neg-time-u64" } else { "-" };
-                v.failures.push((class.into(), format!("a{}.{}@{ta} link {k:?} matched without a qualifying partner", ra[ia].zone, ra[ia].idx)));
+                v.failures.push(("-".into(), format!("a{}.{}@{ta} link {k:?} matched without a qualifying partner", ra[ia].zone, ra[ia].idx)));
             }
         }
     }
@@ -781,8 +770,9 @@ fn ints(v: &[i64]) -> Col {
     Col::I(v.iter().map(|x| Some(*x)).collect())
 }
 
-/// fixed witnesses of the defects (cases 0.. of the `match` stream)
-fn witnesses() -> Vec<(&'static str, Case)> {
+/// fixed cases 0.. of the `match` stream: witnesses of the open defect (`Some(class)`: must still
+/// fail with that class) and regression cases of the repaired ones (`None`: must pass)
+fn witnesses() -> Vec<(Option<&'static str>, Case)> {
     let base = |preceded: bool, wh: Option<E>, za: Zone, zb: Zone| Case {
         preceded,
         tf: "timestamp".into(),
@@ -798,7 +788,7 @@ fn witnesses() -> Vec<(&'static str, Case)> {
     vec![
         (
             // a@1, b@2 (fails WHERE), b@3 (passes): a has a qualifying partner, none returned
-            "nearest-partner-fails-where",
+            Some("nearest-partner-fails-where"),
             base(
                 false,
                 Some(E::Cmp("b.x".into(), Op::Eq, Lit::I(1))),
@@ -808,7 +798,7 @@ fn witnesses() -> Vec<(&'static str, Case)> {
         ),
         (
             // PRECEDED BY: a@10 with b@7 (fails), b@5 (passes)
-            "nearest-partner-fails-where",
+            Some("nearest-partner-fails-where"),
             base(
                 true,
                 Some(E::Cmp("b.x".into(), Op::Eq, Lit::I(1))),
@@ -817,8 +807,8 @@ fn witnesses() -> Vec<(&'static str, Case)> {
             ),
         ),
         (
-            // PRECEDED BY, no WHERE: a@1, a@10, b@5 — a@10 is preceded by b@5, nothing returned
-            "preceded-first-b-not-earlier",
+            // regression (fix e929a74): PRECEDED BY, no WHERE: a@1, a@10, b@5 — b@5 → a@10 is returned
+            None,
             base(
                 true,
                 None,
@@ -827,8 +817,8 @@ fn witnesses() -> Vec<(&'static str, Case)> {
             ),
         ),
         (
-            // a@-1 FOLLOWED BY b@0: -1 as u64 is later than 0
-            "neg-time-u64",
+            // regression (fix 0bad566): a@-1 FOLLOWED BY b@0 is a pair (times compared as i64)
+            None,
             base(
                 false,
                 None,
@@ -948,7 +938,7 @@ fn run_component(a: &Args, prefilter: bool) {
         }
         let mut r = Rng::for_case(a.seed, name, i);
         let (expect_class, c) = match wit.get(i as usize) {
-            Some((cl, c)) => (Some(*cl), c.clone()),
+            Some((cl, c)) => (*cl, c.clone()),
             None => (None, gen_case(&mut r)),
         };
         let reg = registry(&c.ty_a, &c.ty_b, &regdir, i % 4);
@@ -1015,7 +1005,7 @@ fn run_component(a: &Args, prefilter: bool) {
         };
         let pl = to_idx(&lim);
         let pu = unl.as_ref().map(to_idx);
-        let v = oracle(c.preceded, &c.tf, &c.lf, &c.ty_a, &c.ty_b, &c.wh, c.limit, &ra, &rb, &pl, pu.as_deref(), prefilter, true);
+        let v = oracle(c.preceded, &c.tf, &c.lf, &c.ty_a, &c.ty_b, &c.wh, c.limit, &ra, &rb, &pl, pu.as_deref(), true);
         s.tally_n("oracle:a_events_judged", v.judged_a as u64);
         s.tally_n("oracle:groups_skipped_null_time", v.skipped_groups as u64);
         if v.failures.is_empty() {
